@@ -1324,7 +1324,7 @@ pub fn run(ctx: &Ctx) -> ! {
          insert/delete errors, FFI calls that pop/push values and fail). Each case is stepped with the bounds, then re-run \
          through RunState::run when it terminated. Non-trivial = at least 3 instructions executed",
         raw_case,
-        ctx.pick(150_000, 5_000_000),
+        ctx.pick(150_000, 3_000_000),
         check,
     );
     rep.explore(
@@ -1334,7 +1334,7 @@ pub fn run(ctx: &Ctx) -> ! {
          codemap), entered at a label of the module with arguments built to match the action/command definitions \
          (or deliberately another context), same scripted I/O. Non-trivial = at least 3 instructions executed",
         mutated_case,
-        ctx.pick(100_000, 3_000_000),
+        ctx.pick(100_000, 2_000_000),
         check,
     );
     alloc_probe(ctx, &mut rep);
